@@ -90,6 +90,10 @@ type vScenario struct {
 	other  *webSessionFactory
 	sealed []vIssued
 	toks   map[string]string // label -> session text
+	// local hash upgrades are on: before a request that presents a password which is the user's,
+	// her record is put under the non-default parameter set again (same password), so that the
+	// password check of THIS request is one that queues a rewrite
+	upgrades bool
 }
 
 func (s *vScenario) do(q vReq) (ok2xx, changed, listShown bool) {
@@ -108,6 +112,23 @@ func (s *vScenario) do(q vReq) (ok2xx, changed, listShown bool) {
 			}
 		}
 	}
+	// (with local hash upgrades a login's rewrite is queued behind the request that caused it: the
+	// update queue is flushed — a request for a user that does not exist is served after everything
+	// queued before it — so that each request is judged with exactly its own effects)
+	s.flush()
+	if s.upgrades {
+		for _, p := range []string{d.password, d.oldpw} {
+			if p == "" {
+				continue
+			}
+			if ok, _, _, _, _ := s.a.ref.Authenticate(d.username, p); ok {
+				keep := s.a.ref.Default
+				s.a.ref.Default = 3 - keep
+				s.a.ref.UpdateUser(d.username, p)
+				s.a.ref.Default = keep
+			}
+		}
+	}
 	pre = s.a.users()
 	before := dirDigest(s.a.dirPath)
 	now := time.Now().Unix()
@@ -122,6 +143,7 @@ func (s *vScenario) do(q vReq) (ok2xx, changed, listShown bool) {
 		}()
 		s.a.mux.ServeHTTP(rec, req)
 	}()
+	s.flush()
 	after := dirDigest(s.a.dirPath)
 	post := s.a.users()
 	changed = before != after
@@ -174,6 +196,12 @@ func (s *vScenario) do(q vReq) (ok2xx, changed, listShown bool) {
 	return
 }
 
+func (s *vScenario) flush() {
+	if s.upgrades {
+		s.a.iface.Update("no-such-user-flush", "x")
+	}
+}
+
 func suiteV06(c *vctx) {
 	r := c.r
 	nsc := 2
@@ -181,12 +209,19 @@ func suiteV06(c *vctx) {
 		nsc = 12
 	}
 	for sc := 0; sc < nsc; sc++ {
-		a, err := newVAgent(c, fmt.Sprintf("api%d", sc), 1+r.Intn(2), "", "", "", "")
+		// odd scenarios: local hash upgrades are on and the records are under the other parameter set,
+		// so that every accepted password check queues a rewrite — a refused request must still leave
+		// the store byte-for-byte unchanged
+		dflt, upg := 1+r.Intn(2), ""
+		if sc%2 == 1 {
+			upg = "local"
+		}
+		a, err := newVAgent(c, fmt.Sprintf("api%d", sc), dflt, upg, "", "", "")
 		if err != nil {
 			c.emit("law.C06.agent_starts "+vxs(err.Error()), "f")
 			continue
 		}
-		s := &vScenario{c: c, a: a, toks: map[string]string{}}
+		s := &vScenario{c: c, a: a, toks: map[string]string{}, upgrades: upg != ""}
 		s.other, _ = NewWebSessionFactory(600 * time.Second)
 		pw := map[string]string{"root": "Root-Passw0rd", "alice": "Alice-Passw0rd", "bob": "Bob-Passw0rd", "carol": "Carol-Passw0rd",
 			"Alice": "UpperAlice-Passw0rd", "ALICE": "AllCaps-Passw0rd", "Root": "UpperRoot-Passw0rd"}
